@@ -372,7 +372,8 @@ pub fn gen_lookahead_rx(d: &mut Dec, p: &GenParams) -> Rx {
 
 pub fn gen_token_type(d: &mut Dec, p: &GenParams) -> usize {
     let w_big = if p.big_token_types { 1 } else { 0 };
-    match d.weighted(&[40, w_big, w_big]) {
+    match d.weighted(&[40, w_big, w_big, 2]) {
+        3 => *d.pick(&[31usize, 32, 63, 64, 65, 67, 127, 128, 129, 255, 256, 257, 1023, 1024, 65_535]),
         0 => d.below(10),
         1 => 65_536 + d.below(1 << 30),
         _ => (1usize << 32) + d.below(1 << 20),
@@ -673,7 +674,7 @@ pub fn add_many_transitions(d: &mut Dec, modes: &mut [ModeSpec], mi: usize) {
     let mut tts: Vec<usize> = modes[mi].pats.iter().map(|p| p.tt).collect();
     tts.sort_unstable();
     tts.dedup();
-    let want = 17 + d.below(24);
+    let want = if d.chance(40) { 65 + d.below(70) } else { 17 + d.below(24) };
     let step = (tts.len() / want.min(tts.len()).max(1)).max(1);
     let mut ts = Vec::new();
     for (k, t) in tts.iter().enumerate() {
@@ -758,7 +759,11 @@ pub fn gen_long_token(d: &mut Dec) -> (Rx, String) {
 
 /// Many tiny modes (257-300): mode indices beyond one byte.
 pub fn gen_many_modes(d: &mut Dec) -> Vec<ModeSpec> {
-    let n = 257 + d.below(44);
+    let n = match d.below(4) {
+        0 => 17 + d.below(24),
+        1 => 65 + d.below(6),
+        _ => 257 + d.below(44),
+    };
     let mut modes = Vec::with_capacity(n);
     for i in 0..n {
         let a = Rx::Lit(*d.pick(&['a', 'b', 'c', 'x']), LitForm::Verbatim);
@@ -766,7 +771,7 @@ pub fn gen_many_modes(d: &mut Dec) -> Vec<ModeSpec> {
         let mut transitions = Vec::new();
         // transitions to far-away and to nearby modes
         let t1 = match d.below(3) {
-            0 => n - 1 - d.below(40),
+            0 => n - 1 - d.below(n.min(40)),
             1 => (i + 1) % n,
             _ => d.below(n),
         };
@@ -784,4 +789,20 @@ pub fn gen_many_modes(d: &mut Dec) -> Vec<ModeSpec> {
         });
     }
     modes
+}
+
+/// A huge input (66-75 thousand characters, beyond 16-bit offsets / counts) made of a repeated
+/// generated chunk.
+pub fn gen_huge_input(d: &mut Dec, model: &Model) -> String {
+    let chunk = gen_long_input(d, model, 20, 60);
+    let chunk = if chunk.is_empty() { "a ".to_string() } else { chunk };
+    let target = 66_000 + d.below(9_000);
+    let mut s = String::with_capacity(target * 2);
+    let mut n = 0;
+    let len = chunk.chars().count();
+    while n < target {
+        s.push_str(&chunk);
+        n += len;
+    }
+    s
 }
